@@ -144,7 +144,8 @@ fn gen_malformed(rng: &mut Rng, startup: bool) -> Frame {
         1 => {
             let l = rng.range(0, min as i64 - 1) as i32;
             set_len(&mut b, l);
-            ("length_below_minimum", None)
+            // the declared frame ends after l bytes: yielding a message from it must not consume more
+            ("length_below_minimum", Some(off + l as usize))
         }
         2 if b.len() > off + min + 1 => {
             // declared end before the terminator: the terminator lies beyond the frame
@@ -324,6 +325,11 @@ fn run_case(case: &Case, rep: &mut RunReport, log: &mut Fnv) -> Option<(String, 
                             if let Some(d) = f.declared {
                                 if consumed > frame_start + d {
                                     return Some(("c27.framing".into(), format!("malformed frame {} ({}) declares {} bytes but decoding it consumed {} (message {:?})", decoded, f.kind, d, consumed - frame_start, got)));
+                                }
+                                // a message was taken from this frame: the whole declared frame belongs to it,
+                                // its remainder must not be decoded as another frame
+                                if f.kind != "length_below_minimum" && consumed != frame_start + d {
+                                    return Some(("c27.framing".into(), format!("malformed frame {} ({}) declares {} bytes; the decoder yielded {:?} after consuming only {} of them, so the rest is read as a new frame", decoded, f.kind, d, got, consumed - frame_start)));
                                 }
                             } else if consumed > frame_end {
                                 return Some(("c27.framing".into(), format!("malformed frame {} ({}) of {} bytes: decoding consumed {} bytes, reaching into the following frame (message {:?})", decoded, f.kind, f.bytes.len(), consumed - frame_start, got)));
